@@ -236,7 +236,7 @@ enum Viol : unsigned {
 
 static const char* viol_name(unsigned v) {
   if (v & V_CRASH) return "crash";
-  if (v & V_CONST_WRITE) return "const_view_wrote";
+  if (v & V_CONST_WRITE) return "nonmutating_call_wrote";
   if (v & V_WRITE_OUTSIDE) return "write_outside_view";
   if (v & V_OUTSIDE_CHANGED) return "bytes_outside_changed";
   if (v & V_REGION_MISMATCH) return "region_differs_from_model";
@@ -342,10 +342,10 @@ static StepReport run_history(const History& hs, HistStats& st) {
     st.by_call[call.id]++;
     if (call_mutates(call.id)) st.mutating++;
     else st.const_calls++;
-    if (call.id >= K_PART_ASSIGN && call.id <= K_PART_RAW_WRITE) st.part_calls++;
-    if (call.id == K_PART_READ || call.id == K_PART_CONST_OPS) st.part_calls++;
+    if (call_uses_part(call.id)) st.part_calls++;
     if (call.src_region == call.region && (call.id == K_ASSIGN_FROM || call.id == K_MUL_ASSIGN || call.id == K_MAP_ASSIGN_MAP ||
-                                            call.id == K_COMPOSE || call.id == K_RMINUS || call.id == K_CONSTRUCT_INTO))
+                                            call.id == K_COMPOSE || call.id == K_RMINUS || call.id == K_CONSTRUCT_INTO ||
+                                            call.id == K_ASSIGN_FROM_TEMP_VIEW || call.id == K_PART_FROM_TEMP_VIEW))
       st.overlapping++;
     if (call.stale) st.stale++;
     st.intercepted_writes += sim::ws_count();
@@ -526,7 +526,8 @@ static std::string hist_json(const char* tag, uint64_t seed, uint64_t widx, cons
   s = b;
   if (fs && fs->kind == ST_CALL) {
     const TypeDef* td = find_type(hs.type.c_str());
-    int part = td->nparts ? fs->call.part % td->nparts : -1;
+    bool uses_part = call_uses_part(fs->call.id);
+    int part = (td->nparts && uses_part) ? fs->call.part % td->nparts : -1;
     snprintf(b, sizeof b, ",\"call\":\"%s\",\"view\":\"%s\",\"src_kind\":%d,\"same_region\":%d,\"part\":\"%s\",\"stale\":%d",
              kCallNames[fs->call.id], fs->call.view ? "Map<const G>" : "Map<G>", fs->call.src_kind,
              (int)(fs->call.src_region == fs->call.region), part >= 0 ? td->part_names[part] : "", fs->call.stale);
